@@ -795,6 +795,7 @@ func TestVerif_C27(t *testing.T) {
 		// the small structured families first: they must complete even when the machine is so loaded
 		// that the byte-string enumeration below runs into the deadline
 		c27Depth(r, forks, target)
+		c27StackBound(r, forks, target)
 		c27Args(r, forks, target)
 		c27Struct(r, forks, target)
 		r.Parallel(len(shards), func(si int) {
@@ -1332,6 +1333,219 @@ func c27Depth(r *mc.R, forks []string, target *c27Case) {
 		<-mu
 		for k, v := range out {
 			total["depth:"+k] += v
+		}
+		mu <- struct{}{}
+	})
+	for k, v := range total {
+		r.OutcomeN(k, v)
+	}
+}
+
+// ---------------------------------------------------------------------------
+// Stack-bound family: EVERY opcode byte of EVERY rule set at the stack heights
+// around its own bounds, expected outcome from the Yellow Paper / EIP values of
+// delta (items removed) and alpha (items added), NOT from the jump table.
+
+type c27StackSpec struct {
+	pops, pushes int
+	since        string
+	imm          []byte // immediate bytes appended (EIP-8024 instructions)
+}
+
+// c27StackTable: delta/alpha of every defined instruction and the rule set that
+// introduced it (Yellow Paper appendix H; EIPs 7, 140, 145, 211, 214, 1014, 1052,
+// 1344, 1884, 3198, 3855, 1153, 5656, 4844, 7516, 7939, 7843, 8024).
+func c27StackTable() map[byte]c27StackSpec {
+	t := map[byte]c27StackSpec{}
+	set := func(since string, pops, pushes int, ops ...byte) {
+		for _, o := range ops {
+			t[o] = c27StackSpec{pops: pops, pushes: pushes, since: since}
+		}
+	}
+	F := "Frontier"
+	set(F, 0, 0, 0x00, 0x5b)                                           // STOP JUMPDEST
+	set(F, 2, 1, 0x01, 0x02, 0x03, 0x04, 0x05, 0x06, 0x07, 0x0a, 0x0b) // arithmetic
+	set(F, 3, 1, 0x08, 0x09)                                           // ADDMOD MULMOD
+	set(F, 2, 1, 0x10, 0x11, 0x12, 0x13, 0x14, 0x16, 0x17, 0x18, 0x1a) // comparisons, bitwise, BYTE
+	set(F, 1, 1, 0x15, 0x19)                                           // ISZERO NOT
+	set("Constantinople", 2, 1, 0x1b, 0x1c, 0x1d)                      // SHL SHR SAR
+	set("Osaka", 1, 1, 0x1e)                                           // CLZ
+	set(F, 2, 1, 0x20)                                                 // KECCAK256
+	set(F, 0, 1, 0x30, 0x32, 0x33, 0x34, 0x36, 0x38, 0x3a)             // ADDRESS ORIGIN CALLER CALLVALUE CALLDATASIZE CODESIZE GASPRICE
+	set(F, 1, 1, 0x31, 0x35, 0x3b)                                     // BALANCE CALLDATALOAD EXTCODESIZE
+	set(F, 3, 0, 0x37, 0x39)                                           // CALLDATACOPY CODECOPY
+	set(F, 4, 0, 0x3c)                                                 // EXTCODECOPY
+	set("Byzantium", 0, 1, 0x3d)                                       // RETURNDATASIZE
+	set("Byzantium", 3, 0, 0x3e)                                       // RETURNDATACOPY
+	set("Constantinople", 1, 1, 0x3f)                                  // EXTCODEHASH
+	set(F, 1, 1, 0x40)                                                 // BLOCKHASH
+	set(F, 0, 1, 0x41, 0x42, 0x43, 0x44, 0x45)                         // COINBASE TIMESTAMP NUMBER DIFFICULTY GASLIMIT
+	set("Istanbul", 0, 1, 0x46, 0x47)                                  // CHAINID SELFBALANCE
+	set("London", 0, 1, 0x48)                                          // BASEFEE
+	set("Cancun", 1, 1, 0x49)                                          // BLOBHASH
+	set("Cancun", 0, 1, 0x4a)                                          // BLOBBASEFEE
+	set("Amsterdam", 0, 1, 0x4b)                                       // SLOTNUM
+	set(F, 1, 0, 0x50, 0x56)                                           // POP JUMP
+	set(F, 1, 1, 0x51, 0x54)                                           // MLOAD SLOAD
+	set(F, 2, 0, 0x52, 0x53, 0x55, 0x57)                               // MSTORE MSTORE8 SSTORE JUMPI
+	set(F, 0, 1, 0x58, 0x59, 0x5a)                                     // PC MSIZE GAS
+	set("Cancun", 1, 1, 0x5c)                                          // TLOAD
+	set("Cancun", 2, 0, 0x5d)                                          // TSTORE
+	set("Cancun", 3, 0, 0x5e)                                          // MCOPY
+	set("Shanghai", 0, 1, 0x5f)                                        // PUSH0
+	for i := 0; i < 32; i++ {
+		set(F, 0, 1, byte(0x60+i)) // PUSHn
+	}
+	for k := 1; k <= 16; k++ {
+		set(F, k, k+1, byte(0x7f+k))   // DUPk
+		set(F, k+1, k+1, byte(0x8f+k)) // SWAPk
+	}
+	for n := 0; n <= 4; n++ {
+		set(F, n+2, 0, byte(0xa0+n)) // LOGn
+	}
+	set(F, 3, 1, 0xf0)                // CREATE
+	set(F, 7, 1, 0xf1, 0xf2)          // CALL CALLCODE
+	set(F, 2, 0, 0xf3)                // RETURN
+	set("Homestead", 6, 1, 0xf4)      // DELEGATECALL
+	set("Constantinople", 4, 1, 0xf5) // CREATE2
+	set("Byzantium", 6, 1, 0xfa)      // STATICCALL
+	set("Byzantium", 2, 0, 0xfd)      // REVERT
+	set(F, 1, 0, 0xff)                // SELFDESTRUCT
+	// EIP-8024 with one fixed valid immediate each (every immediate is covered by the depth family)
+	n, _ := c27DecodeSingle(0x80)
+	t[progx.DUPN] = c27StackSpec{n, n + 1, "Amsterdam", []byte{0x80}}
+	t[progx.SWAPN] = c27StackSpec{n + 1, n + 1, "Amsterdam", []byte{0x80}}
+	a, b, _ := c27DecodePair(0x01)
+	t[progx.EXCHANGE] = c27StackSpec{max(a, b) + 1, max(a, b) + 1, "Amsterdam", []byte{0x01}}
+	return t
+}
+
+func c27StackBound(r *mc.R, forks []string, target *c27Case) {
+	table := c27StackTable()
+	r.Bound("stackbound.opcode_bytes", 256)
+	r.Bound("stackbound.defined_in_newest", len(table))
+	r.Assume("stack-bound family: every opcode byte 0x00..0xff under each rule set, on a stack of h zero items for h in {delta-1, delta, 1024-(alpha-delta), 1024-(alpha-delta)+1, 1023, 1024} (undefined bytes: h in {0, 1024}), " +
+		"as the outermost frame and inside a child frame: expected stack underflow if h < delta, stack overflow if h-delta+alpha > 1024, invalid opcode if the byte is not defined in the rule set, anything else otherwise; delta/alpha/introducing fork from the table transcribed in the harness")
+	type shard struct {
+		fork string
+		lo   int
+	}
+	var shards []shard
+	for _, f := range forks {
+		for lo := 0; lo < 256; lo += 8 {
+			shards = append(shards, shard{f, lo})
+		}
+	}
+	total := map[string]int64{}
+	mu := make(chan struct{}, 1)
+	mu <- struct{}{}
+	r.Parallel(len(shards), func(si int) {
+		sh := shards[si]
+		if target != nil && (target.Fork != sh.fork || !strings.HasPrefix(target.Prologue, "stackbound:")) {
+			return
+		}
+		rs := progx.Fork(sh.fork)
+		env := newC27Env(rs)
+		out := map[string]int64{}
+		var evals int64
+		for b := sh.lo; b < sh.lo+8; b++ {
+			if r.Expired() {
+				break
+			}
+			spec, ok := table[byte(b)]
+			defined := ok && rs.At(spec.since)
+			heights := []int{0, 1024}
+			if defined {
+				net := spec.pushes - spec.pops
+				heights = heights[:0]
+				for _, h := range []int{spec.pops - 1, spec.pops, 1024 - net, 1024 - net + 1, 1023, 1024} {
+					dup := false
+					for _, x := range heights {
+						dup = dup || x == h
+					}
+					if h >= 0 && h <= 1024 && !dup {
+						heights = append(heights, h)
+					}
+				}
+			}
+			for _, h := range heights {
+				body := progx.New()
+				if h > 0 {
+					body.Push(0)
+					for i := 1; i < h; i++ {
+						body.Op(progx.DUP1)
+					}
+				}
+				body.Op(byte(b))
+				if defined {
+					body.Raw(spec.imm)
+				}
+				want := "other"
+				switch {
+				case !defined:
+					want = "invalid-opcode"
+				case h < spec.pops:
+					want = "stack-underflow"
+				case h-spec.pops+spec.pushes > 1024:
+					want = "stack-overflow"
+				}
+				for _, ctx := range []string{"outer", "child"} {
+					name := fmt.Sprintf("stackbound:%s:%02x:h%d", ctx, b, h)
+					if target != nil && target.Prologue != name {
+						continue
+					}
+					var code []byte
+					env.calleeCode = nil
+					if ctx == "child" {
+						childGas := uint64(2_000_000)
+						code = progx.New().Push(0xdead01).CallKind(progx.CALL, progx.AddrB, &childGas, 0).Op(progx.POP, progx.STOP).Bytes()
+						env.calleeCode = body.Bytes()
+					} else {
+						code = body.Bytes()
+					}
+					verr := mc.Safely(func() error {
+						res, e2 := env.run("call", code, c27BaseGas, 0)
+						if e2 != nil {
+							return e2
+						}
+						got := res.class
+						if ctx == "child" {
+							if res.class != "success" {
+								return fmt.Errorf("the parent frame ended with %s", res.class)
+							}
+							if len(env.tr.childClass) == 0 {
+								return fmt.Errorf("no child frame ran")
+							}
+							got = env.tr.childClass[len(env.tr.childClass)-1] // the direct child exits last
+						}
+						switch got {
+						case "stack-underflow", "stack-overflow", "invalid-opcode":
+						default:
+							got = "other"
+						}
+						if got != want {
+							return fmt.Errorf("opcode %#02x (delta %d, alpha %d, defined=%v) on a stack of %d items: outcome %s, expected %s", b, spec.pops, spec.pushes, defined, h, got, want)
+						}
+						return nil
+					})
+					if verr != nil && (strings.HasPrefix(verr.Error(), "panic:") || strings.HasPrefix(verr.Error(), "aborted")) {
+						env = newC27Env(rs)
+					}
+					if verr != nil || r.Replaying() {
+						r.Case(c27Case{sh.fork, "call", name, fmt.Sprintf("%x", body.Bytes()[max(0, body.Len()-2):]), c27BaseGas, 0, "baseline"}, func() error { return verr })
+					} else {
+						evals++
+					}
+					out[ctx+":"+want]++
+					r.DistinctHash(mc.Hash64(sh.fork + name))
+				}
+			}
+		}
+		env.calleeCode = nil
+		r.Eval(evals)
+		<-mu
+		for k, v := range out {
+			total["stackbound:"+k] += v
 		}
 		mu <- struct{}{}
 	})
